@@ -1006,7 +1006,14 @@ static void make_words(vf_rng *r)
 			}
 			words[i][len] = 0;
 			again = !high;
-			for (int k = 0; k < i; k++) if (!strcmp(words[k], words[i])) again = 1;
+			/* the id domain must stay free of duplicates: no second word with the same text or the same hash
+			 * (short words collide easily), no hash equal to a message or bulk id */
+			for (int k = 0; k < i; k++) {
+				if (!strcmp(words[k], words[i])) again = 1;
+				if (mpt_hash(words[k], (int) strlen(words[k])) == mpt_hash(words[i], len)) again = 1;
+			}
+			for (int k = 0; k < NMSGID; k++) if (msgids[k] == mpt_hash(words[i], len)) again = 1;
+			for (int k = 0; k < NBULK; k++) if (0x1000 + (uintptr_t) k * 3 == mpt_hash(words[i], len)) again = 1;
 		} while (again);
 	}
 	for (int i = 0; i < NWORD; i++) {
